@@ -40,6 +40,7 @@ struct St {
     frames_after_user_reset: u32,
     /// E has written HEADERS for the stream (a stream E initiates exists for the peer only from then on)
     e_wrote_headers: bool,
+    e_headers_written_t: Option<u64>,
 }
 
 pub fn check_endpoint(v: &View, e: Side, quiescent: bool, viol: &mut Vec<Violation>, stats: &mut Stats) {
@@ -50,6 +51,7 @@ pub fn check_endpoint(v: &View, e: Side, quiescent: bool, viol: &mut Vec<Violati
     // connection-level causes
     let mut conn_failed_at: Option<u64> = None; // E wrote an error GOAWAY, saw a fault, or its connection future ended with an error
     let mut peer_goaway: Option<(u64, u32, u32)> = None; // (t, last, code)
+    let mut peer_goaways_read: Vec<(u64, u32)> = Vec::new(); // every GOAWAY of the peer that E has read: (t, last)
     let mut seen_rules: std::collections::BTreeSet<String> = Default::default();
     let mut last_write_t: u64 = 0;
     let mut fail = |viol: &mut Vec<Violation>, rule: String, detail: String| {
@@ -84,6 +86,7 @@ pub fn check_endpoint(v: &View, e: Side, quiescent: bool, viol: &mut Vec<Violati
                     }
                     if matches!(f.body, Body::Headers { .. }) {
                         s.e_wrote_headers = true;
+                        s.e_headers_written_t.get_or_insert(ev.t);
                     }
                     if matches!(f.body, Body::Data { .. } | Body::Headers { .. }) && s.user_reset.map(|(tu, _)| tu < ev.t).unwrap_or(false) {
                         s.frames_after_user_reset += 1;
@@ -139,6 +142,7 @@ pub fn check_endpoint(v: &View, e: Side, quiescent: bool, viol: &mut Vec<Violati
                         }
                     }
                     Body::GoAway { last, code, .. } => {
+                        peer_goaways_read.push((ev.t, *last));
                         if peer_goaway.is_none() {
                             peer_goaway = Some((ev.t, *last, *code));
                         }
@@ -213,7 +217,10 @@ pub fn check_endpoint(v: &View, e: Side, quiescent: bool, viol: &mut Vec<Violati
                 // (a peer reset read while ours was still waiting to be written supersedes it: no RST_STREAM in
                 // response to RST_STREAM)
                 let peer_first = s.peer_rst.is_some();
-                let goaway_cut = peer_goaway.map(|(tg, last, _)| tg < tu && *sid > last).unwrap_or(false);
+                // (a GOAWAY of the peer that excludes the stream, read before the reset was due - before the call, or, for
+                // a stream whose HEADERS were still waiting, before those were written - ends the stream for both sides)
+                let due_from = tu.max(s.e_headers_written_t.unwrap_or(0));
+                let goaway_cut = (*sid % 2 == 1) != e_is_server && peer_goaways_read.iter().any(|(tg, last)| *tg < due_from && *sid > *last);
                 // a stream E initiates that never got onto the wire (waiting for a concurrency slot until a GOAWAY or
                 // the end of the connection) has nothing to reset there
                 let local = (*sid % 2 == 1) != e_is_server;
